@@ -487,7 +487,8 @@ fn analyse(c: &GCase, file_items: &[Vec<RItem>], root_items: &[RItem], out: &Out
     let multi_key = reached.iter().any(|k| differing(k));
     let root_hit = lines.iter().any(|l| l.wanted.iter().any(|id| root_ids.contains(id)));
     let any_dup_frag = reached.iter().filter_map(|k| find(k)).any(|fi| dup_frag_names(fi));
-    let guard = !multi_key && !root_hit && !dup_target && !any_dup_frag;
+    let _ = (dup_target, any_dup_frag);
+    let guard = !multi_key && !root_hit;
     let shape = {
         let multi = reached.iter().any(|k| lines_to(k).len() > 1);
         let root_cycle = find(Path::new(&c.root_path)).is_some() && lines.iter().any(|l| l.key == PathBuf::from(&c.root_path));
@@ -525,14 +526,15 @@ fn analyse(c: &GCase, file_items: &[Vec<RItem>], root_items: &[RItem], out: &Out
                 failing = true;
                 if !l.found { explained = false; continue; }
                 let fi = find(&l.key).unwrap();
+                let _ = fi;
                 if lines_to(&l.key).len() > 1 && differing(&l.key) { classes.insert("skipped-line-error-unreported".into()); }
-                else if dup_frag_names(fi) { classes.insert("dup-fragment-masks-missing".into()); }
                 else { explained = false; }
             }
         }
         Outcome::Panic(_) => {
+            // no panic is a known finding any more (the `expect` is gone since /repo 3dc6a57)
             failing = true;
-            if dup_target { classes.insert("dup-target-panic".into()); } else { explained = false; }
+            explained = false;
         }
         Outcome::Err(_, _) => {
             if expected_ok { failing = true; explained = false; }
